@@ -54,13 +54,28 @@ fn layout(
 /// flag bit positions (WebAuthn §6.1): UP=0x01 UV=0x04 AT=0x40 ED=0x80
 #[kani::proof]
 pub fn c07_k_flag_bits() {
-    assert!(AuthenticatorDataFlags::USER_PRESENCE.bits() == 0x01, "C07: UP bit");
-    assert!(AuthenticatorDataFlags::USER_VERIFIED.bits() == 0x04, "C07: UV bit");
-    assert!(AuthenticatorDataFlags::ATTESTED_CREDENTIAL_DATA.bits() == 0x40, "C07: AT bit");
-    assert!(AuthenticatorDataFlags::EXTENSION_DATA.bits() == 0x80, "C07: ED bit");
+    assert!(
+        AuthenticatorDataFlags::USER_PRESENCE.bits() == 0x01,
+        "C07: UP bit"
+    );
+    assert!(
+        AuthenticatorDataFlags::USER_VERIFIED.bits() == 0x04,
+        "C07: UV bit"
+    );
+    assert!(
+        AuthenticatorDataFlags::ATTESTED_CREDENTIAL_DATA.bits() == 0x40,
+        "C07: AT bit"
+    );
+    assert!(
+        AuthenticatorDataFlags::EXTENSION_DATA.bits() == 0x80,
+        "C07: ED bit"
+    );
     let raw: u8 = kani::any();
     let f = AuthenticatorDataFlags::from_bits_truncate(raw);
-    assert!(f.bits() == raw & 0xC5, "C07: flag set does not round-trip its bits");
+    assert!(
+        f.bits() == raw & 0xC5,
+        "C07: flag set does not round-trip its bits"
+    );
 }
 
 fn any_flags() -> AuthenticatorDataFlags {
@@ -79,7 +94,11 @@ pub fn c07_k_get_assertion_no_extensions() {
         rp_id_hash: &rp,
         flags,
         sign_count: count,
-        attested_credential_data: if kani::any() { Some(get_assertion::NoAttestedCredentialData) } else { None },
+        attested_credential_data: if kani::any() {
+            Some(get_assertion::NoAttestedCredentialData)
+        } else {
+            None
+        },
         extensions: None,
     };
     let out = ad.serialize();
@@ -88,7 +107,10 @@ pub fn c07_k_get_assertion_no_extensions() {
             assert!(bytes.len() == 37, "C07: length of the fixed part");
             let k: usize = kani::any();
             kani::assume(k < 37);
-            assert!(bytes[k] == layout(k, &rp, flags.bits(), count, None, &[]), "C07: fixed part layout");
+            assert!(
+                bytes[k] == layout(k, &rp, flags.bits(), count, None, &[]),
+                "C07: fixed part layout"
+            );
         }
         Err(_) => panic!("C07: 37 bytes always fit"),
     }
@@ -111,7 +133,11 @@ fn mc_case<const A: usize, const I: usize, const K: usize>() {
         flags,
         sign_count: count,
         attested_credential_data: if present {
-            Some(make_credential::AttestedCredentialData { aaguid, credential_id: id, credential_public_key: key })
+            Some(make_credential::AttestedCredentialData {
+                aaguid,
+                credential_id: id,
+                credential_public_key: key,
+            })
         } else {
             None
         },
@@ -124,8 +150,15 @@ fn mc_case<const A: usize, const I: usize, const K: usize>() {
             assert!(bytes.len() == expect, "C07: total length");
             let k: usize = kani::any();
             kani::assume(k < expect);
-            let att = if present { Some((aaguid, id, key)) } else { None };
-            assert!(bytes[k] == layout(k, &rp, flags.bits(), count, att, &[]), "C07: attested credential data layout");
+            let att = if present {
+                Some((aaguid, id, key))
+            } else {
+                None
+            };
+            assert!(
+                bytes[k] == layout(k, &rp, flags.bits(), count, att, &[]),
+                "C07: attested credential data layout"
+            );
         }
         Err(_) => panic!("C07: small data always fits"),
     }
@@ -184,4 +217,64 @@ pub fn c07_k_capacity_frontier() {
     frontier(621, 0); // 676
     frontier(622, 0); // 677: one too many (in the credential id copy)
     frontier(0, 622); // 677
+}
+
+/// optional parts present iff supplied: an extension map that is supplied is emitted even when it
+/// has no member (A0), and is the specification encoding when it has one.
+#[kani::proof]
+#[kani::unwind(34)]
+pub fn c07_k_extensions_present_iff_supplied() {
+    let rp: [u8; 32] = kani::any();
+    let flags = any_flags();
+    let count: u32 = kani::any();
+    // GetAssertion flavour, extension outputs supplied but empty
+    let ga = get_assertion::AuthenticatorData {
+        rp_id_hash: &rp,
+        flags,
+        sign_count: count,
+        attested_credential_data: None,
+        extensions: Some(get_assertion::ExtensionsOutput::default()),
+    };
+    let out = ga.serialize().unwrap();
+    assert!(out.len() == 38 && out[37] == 0xA0, "C07: a supplied (empty) extension map must be present");
+    // MakeCredential flavour, credProtect supplied: A1 6B "credProtect" <uint>
+    let cp: u8 = kani::any();
+    kani::assume(cp < 24);
+    let mut ext = make_credential::Extensions::default();
+    ext.cred_protect = Some(cp);
+    let mc = make_credential::AuthenticatorData {
+        rp_id_hash: &rp,
+        flags,
+        sign_count: count,
+        attested_credential_data: None,
+        extensions: Some(ext),
+    };
+    let out = mc.serialize().unwrap();
+    let mut spec = SpecBuf::<16>::new();
+    spec.map(1);
+    spec.text(b"credProtect");
+    spec.uint(cp as u64);
+    assert!(out.len() == 37 + spec.len, "C07: extension map length");
+    let k: usize = kani::any();
+    kani::assume(k < spec.len);
+    assert!(out[37 + k] == spec.buf[k], "C07: extension map is not the CBOR map of the supplied outputs");
+    // supplied but empty, MakeCredential flavour
+    let mc2 = make_credential::AuthenticatorData {
+        rp_id_hash: &rp,
+        flags,
+        sign_count: count,
+        attested_credential_data: None,
+        extensions: Some(make_credential::Extensions::default()),
+    };
+    let out2 = mc2.serialize().unwrap();
+    assert!(out2.len() == 38 && out2[37] == 0xA0, "C07: a supplied (empty) extension map must be present");
+}
+
+/// capacity frontier (quick): total 676 fits exactly, 677 and 678 must fail (never shortened data)
+#[kani::proof]
+#[kani::unwind(702)]
+pub fn c07_k_capacity_frontier_quick() {
+    frontier(544, 77); // 676
+    frontier(545, 77); // 677
+    frontier(546, 77); // 678
 }
